@@ -1434,6 +1434,8 @@ class Flattener:
             return None
         if not _single_exit(fn) and _tailify([s for s in fn.body]) is None:
             return None
+        if any(isinstance(n, ast.While) for n in ast.walk(fn)):
+            return None     # an open-ended loop: a unit of its own (summarised where a rule needs it, e.g. sa/powdom.py)
         # recursion guard
         for n in ast.walk(fn):
             if isinstance(n, ast.Call) and ((isinstance(n.func, ast.Name) and n.func.id == name) or
@@ -2279,6 +2281,11 @@ class Flattener:
             if not _thread_flags(fi.node):
                 break
             any_change = True
+        from .selnorm import canon_selector_designs
+        lem = canon_selector_designs(fi.node)
+        if lem:
+            any_change = True
+            self.log.append("%s: one-hot selector design %s rewritten to the library form by its lemma (sa/selnorm.py)" % (fi.fq, "/".join(lem)))
         if any_change:
             for n in ast.walk(fi.node):
                 for c in ast.iter_child_nodes(n):
